@@ -17,6 +17,7 @@ from .common import ExecBase, Scratch, Violation, short_hash, transition_key
 
 PROP = "C03"
 LEVEL = "fault_enumeration"
+CHUNK = {"quick": 10, "thorough": 3}  # a thorough program enumerates up to 3000 crash points: keep chunks small
 
 RULE = ("A case is one execution: a seeded world + a program of successful operations + one terminal fault "
         "(an aimed rejection, or an interrupt injected at one robotools source line of the terminal operation); "
